@@ -34,7 +34,7 @@ PROPERTY_FILES = {
     "C05": ["C05", "C05Log", "SrcLin", "FullLin", "FullLog", "FullApi"],
     "C06": ["C06", "C06Unbias", "C09Link", "SrcRand", "FullLog"], "C07": ["C07", "FullEst"], "C08": ["C08", "C08Compose", "SrcPar"], "C09": ["C09", "C09Link", "SrcLin", "FullLin"],
     "C10": ["C10", "SrcSchema"],
-    "C11": ["C11"], "C12": ["C12", "FullLin", "FullLog", "FullHll", "FullHH", "FullApi"], "C13": ["C13", "SrcHH", "FullHH", "SrcHHQ"], "C14": ["C14"], "C15": ["C15"], "C16": ["C16", "SrcSchema"],
+    "C11": ["C11", "FullHash"], "C12": ["C12", "FullLin", "FullLog", "FullHll", "FullHH", "FullApi"], "C13": ["C13", "SrcHH", "FullHH", "SrcHHQ"], "C14": ["C14"], "C15": ["C15"], "C16": ["C16", "SrcSchema"],
     "C17": ["C17", "FullEst"], "C18": ["C18", "C09Link", "SrcLin", "FullLin"], "C19": ["C19", "SrcPar"], "C20": ["C20", "SrcSchema"],
 }
 
@@ -393,7 +393,9 @@ def write_evidence(res, lean, level, extra_cov=None, assumptions=None, violation
             "Lean 4.33.0 kernel",
             "axioms allowed: propext, Classical.choice, Quot.sound (audited per theorem on this run)",
             "hand-written model tied to /repo by differential correspondence (this harness, the driver's parsing/re-tabulation glue)",
-            "translator harness/translate.py (constants, HLL tables)",
+            "translators harness/translate.py (constants, HLL tables, merge guards), kernels.py (decision-logic cores, HH query logic, merge rounds, worker skeleton), "
+            "kernels2.py (whole Numba kernels; integer casts dropped, arrays as total functions), methods.py (class methods, batch entry points), schema.py (save/load schema, "
+            "constructor validation, shared-memory layouts)",
             "Numba, NumPy, CPython, libm, OS are modelled, not verified",
         ],
         "theorems": {n: t["axioms"] for n, t in (lean.theorems.items() if lean else [])},
